@@ -95,6 +95,35 @@ def broadcastDep (selfNdim : Nat) (anyNdim : Bool) (o : Operand) : Bool :=
 def partitionsPush (selfNdim : Nat) (anyNdim : Bool) (ops : List Operand) : List Bool :=
   ops.map (fun o => o.isExpr && !broadcastDep selfNdim anyNdim o)
 
+/-- `Partitions._simplify_down`, the class guard in front of `partitionsPush`: the selection is pushed below a
+    Blockwise frame unless the frame is one of the structural exceptions (`BlockwiseIO`, `Fused`,
+    `SetIndexBlockwise`: they handle or forbid selections themselves) or its tasks depend on the NUMBER of the
+    partition they compute — `MapOverlap` (reads neighbours, D82), `Sample` / `Split` (random state per partition
+    number) and `MapPartitions` with a `partition_info` argument (D105). -/
+def partitionsPushAllowed (structural numberDependent : Bool) : Bool :=
+  !(structural || numberDependent)
+
+inductive PartsRule where
+  | wrap      -- the operands are wrapped in `Partitions(·, P)` (see `partitionsPush`)
+  | absorb    -- a `PartitionsFiltered` frame takes the selection into its `_partitions` operand (`composeSel`)
+  | none      -- the `Partitions` node stays
+deriving DecidableEq, Repr
+
+/-- the branches of `Partitions._simplify_down` for a Blockwise frame, in the order of the code -/
+def partitionsRule (structural numberDependent filtered : Bool) : PartsRule :=
+  if partitionsPushAllowed structural numberDependent then .wrap
+  else if filtered then .absorb
+  else .none
+
+/-- a blockwise operation whose task may look at the partition number: output `j` of the operation applied to a
+    frame with partitions `parts` -/
+def numberedOut (f : Nat → List Row → List Row) (parts : List (List Row)) (j : Nat) : List Row :=
+  f j (parts.getD j [])
+
+/-- the selected frame `Partitions(frame, P)` -/
+def selectParts (parts : List (List Row)) (P : List Nat) : List (List Row) :=
+  P.map (fun p => parts.getD p [])
+
 /-- composition with a `PartitionsFiltered` frame:
     `[frame._partitions[p] for p in self.partitions] if frame._partitions else self.partitions`
     (`frame._partitions` is `range(npartitions)` when unfiltered, so both branches index) -/
